@@ -738,9 +738,18 @@ fn explore(run: &Run, label: &str, m: Tracker, depth: usize) -> Outcome {
             assert!(Frame::from_bytes(bytes).is_ok(), "alphabet letter {name} does not decode");
         }
     }
-    let checker = m.checker().threads(16).target_max_depth(depth + 1).spawn_bfs().join();
-    let states = checker.unique_state_count() as u64;
-    let _ = checker.max_depth();
+    // DFS keeps only fingerprints of visited states plus one path per thread (BFS kept a frontier of full
+    // states: 39 GB at depth 6). Depth is part of the state key, so a state reached again by a shorter path is
+    // a different state and the bounded search stays exhaustive. VERIF_E2_BFS=1 selects BFS (cross-check).
+    let builder = m.checker().threads(16).target_max_depth(depth + 1);
+    let use_bfs = std::env::var("VERIF_E2_BFS").is_ok() || label.contains("/bfs");
+    let (states, _sr_depth) = if use_bfs {
+        let c = builder.spawn_bfs().join();
+        (c.unique_state_count() as u64, c.max_depth())
+    } else {
+        let c = builder.spawn_dfs().join();
+        (c.unique_state_count() as u64, c.max_depth())
+    };
     let maxd = max_depth.load(Ordering::Relaxed) as usize;
     let mut found = found.lock().unwrap().clone();
     found.sort_by(|a, b| (a.0.len(), &a.0, &a.1).cmp(&(b.0.len(), &b.0, &b.1)));
@@ -808,7 +817,7 @@ pub fn c12(tier: Tier) -> i32 {
     let run = Run::new("C12", tier);
     assert!(vclock::self_test());
     let mut outs = vec![];
-    let depth = if tier.thorough() { 4 } else { 3 };
+    let depth = if tier.thorough() { 5 } else { 3 };
     for (label, rx, range) in [("rx35N80W", (35.0, -80.0), 500.0), ("rx89N10E.range50", (89.0, 10.0), 50.0)] {
         let o = explore(&run, &format!("C12/{label}/d{depth}"), tracker(alphabet_c12(), rx, range, 1_000_000_000, 12), depth);
         outs.push((label.to_string(), o));
@@ -817,7 +826,7 @@ pub fn c12(tier: Tier) -> i32 {
         }
     }
     // determinism self-check: same model twice -> same state count
-    let again = explore(&run, "C12/repeat", tracker(alphabet_c12(), (35.0, -80.0), 500.0, 1_000_000_000, 12), depth.min(3));
+    let again = explore(&run, "C12/repeat/bfs", tracker(alphabet_c12(), (35.0, -80.0), 500.0, 1_000_000_000, 12), depth.min(3));
     let first = explore(&run, "C12/repeat2", tracker(alphabet_c12(), (35.0, -80.0), 500.0, 1_000_000_000, 12), depth.min(3));
     if again.states != first.states {
         println!("MACHINERY: nondeterministic state count {} vs {}", again.states, first.states);
